@@ -85,6 +85,10 @@ def _worker(args):
     batch, count, maxev = r.choice([3, 5, 10]), r.choice([1, 2, 4, 7, 12]), r.choice([30, 60, 100])
     if r.random() < 0.1:
       count, maxev = 12, 5            # more candidates requested than evaluations made
+    if it % 8 == 7:
+      # an evaluation budget below one batch (the repository's own GP tests use max_evaluations=10 with the default batch of 25)
+      # or not a multiple of the batch: the requested candidates must still be real, scored candidates
+      batch, maxev, count = r.choice([(10, 5, 2), (10, 3, 1), (5, 4, 4), (10, 24, 7), (5, 14, 3)])
     kind = ['nonfinite', 'interior', 'needle', 'corner', 'plateau', 'categorical'][(it + it // 6) % 6]
     if it % 4 == 1:
       kind = 'plateau'
